@@ -17,7 +17,6 @@ import (
 	"strings"
 	"testing"
 	"time"
-	"unicode/utf8"
 
 	"pgregory.net/rapid"
 
@@ -217,7 +216,6 @@ type mtok struct {
 	aud, scopes           []string
 	revoked, expired      bool
 	ended                 bool
-	garbled               bool  // issued (by a lax storage) for a subject that is not even valid UTF-8: tracked, never asserted on
 	link                  *mtok // refresh <-> access of the same grant
 }
 
@@ -324,7 +322,13 @@ func (e *env) denote(s string, h int) (*mtok, string) {
 			if t := e.byID[parts[0]]; t != nil && t.kind != "refresh" && t.subject == parts[1] {
 				return t, "alias"
 			}
+			if e.untracked(parts[0]) {
+				return nil, "untracked"
+			}
 		}
+	}
+	if e.untracked(s) {
+		return nil, "untracked"
 	}
 	return nil, "none"
 }
@@ -554,6 +558,30 @@ func (e *env) resolveID(r Ref, g *grant, h int, raw func() presented) presented 
 	return p
 }
 
+// untracked: id names a record of the storage that the model does not track (a token issued by a success the model did not
+// demand, e.g. by the lax storage variant for a forged exchange subject). The model knows that it does not know: every
+// use of a string that names such a record is grey.
+func (e *env) untracked(id string) bool {
+	if e.byID[id] != nil {
+		return false
+	}
+	if _, ok := e.st.TokenSnapshot(id); ok {
+		return true
+	}
+	_, ok := e.st.RefreshSnapshot(id)
+	return ok
+}
+
+// untrackedPlain: s unseals to "<id>:<anything>" with an untracked id (revocation identifies records by id alone).
+func (e *env) untrackedPlain(s string) bool {
+	if pt, ok := unseal(s, e.key); ok {
+		if parts := strings.SplitN(pt, ":", 2); len(parts) == 2 {
+			return e.untracked(parts[0])
+		}
+	}
+	return e.untracked(s)
+}
+
 // readVerdict: must this string be honoured at a read endpoint (userinfo / introspection / exchange input) of host h?
 // +1 must-accept, -1 must-reject, 0 grey.
 func (e *env) readVerdict(p presented, h int, accessOnly bool) (int, string) {
@@ -561,15 +589,15 @@ func (e *env) readVerdict(p presented, h int, accessOnly bool) (int, string) {
 		return p.idv, p.idwhy
 	}
 	if p.tok == nil {
+		if p.class == "untracked" {
+			return 0, "names-untracked-storage-record"
+		}
 		if p.forge != "" {
 			return -1, "forged:" + p.forge
 		}
 		return -1, p.class
 	}
 	t := p.tok
-	if t.garbled || (t.link != nil && t.link.garbled) {
-		return 0, "token-of-garbled-subject"
-	}
 	if !t.live() {
 		return -1, t.death()
 	}
@@ -713,12 +741,6 @@ func (e *env) adopt(resp *vkit.Resp, client, subject, flow string, h int) *grant
 	}
 	// owner and subject are what the request asked for (authenticated client; logged-in user / service account /
 	// subject of the exchanged token); a storage record that says otherwise is another property's finding
-	if subject == "" {
-		// a success the model did not demand (grey: lax storage, unbound token ...): the issued token is tracked as the
-		// storage recorded it, so that later strings that name it are not mistaken for garbage
-		subject = snap.Subject
-		t.garbled = !utf8.ValidString(subject)
-	}
 	if snap.ClientID != client || snap.Subject != subject {
 		e.res.Label("issue-mismatch:" + flow)
 		return nil
@@ -870,7 +892,7 @@ func (e *env) userinfoP(o Op, p presented, h int) {
 	case v < 0 && ok:
 		e.fail("C08:userinfo-honours:"+why, "userinfo answered %d with claims for a token string that must not be honoured (%s; forge=%q): %s", resp.Status, why, p.forge, resp.Describe())
 	}
-	if ok && p.tok != nil && sub != p.tok.subject && !p.tok.garbled { // JSON cannot carry the invalid bytes of a subject a lax storage accepted from a forged token
+	if ok && p.tok != nil && sub != p.tok.subject {
 		e.fail("C08:userinfo-wrong-subject", "userinfo for the token of %s returned sub=%q: %s", p.tok.subject, sub, resp.Describe())
 	}
 	if !ok {
@@ -948,7 +970,7 @@ func (e *env) introspectP(o Op, p presented, h int) {
 		e.fail("C08:introspect-active:"+why, "introspection reported active:true although it must not (%s; caller %s cred %s; forge=%q): %s", why, cl.ID, o.Cred, p.forge, resp.Describe())
 	}
 	if active && p.tok != nil {
-		if s, _ := m["sub"].(string); s != p.tok.subject && !p.tok.garbled {
+		if s, _ := m["sub"].(string); s != p.tok.subject {
 			e.fail("C08:introspect-wrong-claims", "active answer for the token of %s carries sub=%q", p.tok.subject, s)
 		}
 		if s, _ := m["client_id"].(string); s != p.tok.client {
@@ -1006,6 +1028,8 @@ func (e *env) revoke(o Op) {
 		v, why = -1, "unauthenticated"
 	case auth == 0:
 		why = "auth-method-grey"
+	case relation == "unknown" && (p.class == "untracked" || e.untrackedPlain(p.str)):
+		why = "names-untracked-storage-record"
 	case relation == "unknown":
 		v, why = 1, "unknown-token"
 	case p.class == "alias":
@@ -1255,7 +1279,7 @@ func (e *env) exchangeP(o Op, subj presented, actor *presented, h int) {
 	case subj.id && subj.base != nil: // ID token subject: the token issued for it names the ID token's subject
 		adoptSub = subj.base.subject
 	}
-	if ok && resp.Str("access_token") != "" {
+	if ok && resp.Str("access_token") != "" && adoptSub != "" {
 		if g := e.adopt(resp, cl.ID, adoptSub, "exchange", h); g != nil {
 			e.res.Label("issued-by-exchange:" + g.access.kind)
 		}
